@@ -284,8 +284,12 @@ func predict(stream []byte, fromClient bool, deflate, takeover bool, lenient boo
 			return
 		}
 		if open, _, comp, _ := decp.OpenMessage(); open && comp {
+			// a mutated compressed message that never completes may already be
+			// malformed DEFLATE: the library may fail anywhere inside it, before
+			// it reaches a later Close frame or violation
 			ex.Pings = ex.Pings[:pingsAtMsgStart]
 			ex.PongsAtLeast = true
+			ex.Terminal = "malformed-deflate"
 		}
 	}()
 	frames, _, partial, perr := wsref.ParseAll(stream)
